@@ -10,6 +10,7 @@ Discretisation claims are never judged with an absolute tolerance:  (i) first-or
 (ii) the max-norm error over the fixed r / fixed k points shrinks under refinement (ratio < 0.65), (iii) the Richardson
 limit 2Q(dr/2) - Q(dr) on the finest pair is within a second-order envelope of the exact value.
 """
+import copy
 import json
 import math
 import zlib
@@ -97,10 +98,38 @@ def judge_family(ctx, name, label, errs, drs, K, C, rich, scale_note='', ratio=T
     return True
 
 
+FRACTIONS = {2: [0.7, 0.3], 3: [0.5, 0.3, 0.2], 4: [0.4, 0.3, 0.2, 0.1]}
+
+
+def mixture_row(p, res, sp, rho, d, dr, L, lv, k, dk, r):
+    """the quantities of run_pyhs for the fluid written as several labelled species: every pair function must be THE one-component
+    function, so each entry below is a stack over pairs (the exact value broadcasts)"""
+    ts = sp['types']
+    gm = pyPRISM.calculate.pair_correlation(copy.deepcopy(p))
+    Sm = pyPRISM.calculate.structure_factor(copy.deepcopy(p))
+    Bm = pyPRISM.calculate.second_virial(copy.deepcopy(p))
+    ic = int(round(d / dr))
+    nk = int(12.0 / d / dk)
+    inner = (np.arange(1, 10) * 2 ** lv) - 1
+    prs = [(a, b) for a in ts for b in ts]
+    g = np.array([np.array(gm[a, b]) for a, b in prs])
+    if g.min() < -1e-3:
+        raise core.Skip('solver converged to an unphysical root (g < 0)')
+    cs = []
+    for a, b in prs:
+        Ck = np.array(p.directCorr[a, b])
+        cs.append(R.to_real(Ck, dr) if L <= 512 else np.array(p.sys.domain.to_real(Ck)))
+    cs = np.array(cs)
+    Sk = np.array([1 + rho * (np.array(Sm[t, t])[:nk] - 1) / sp['rho'][t] for t in ts])        # 1 + rho h(k) recovered from every diagonal partial
+    return {'dr': dr / d, 'gc': g[:, ic], 'S0': np.array([1 - 2 * rho * float(Bm[a, b]) for a, b in prs]), 'Sk': Sk, 'k': k[:nk], 'cin': cs[:, inner], 'rin': r[inner],
+            'cout': float(np.abs(cs[:, ic:]).max()), 'gcore': float(np.abs(g[:, :ic - 1]).max()), 'resid': float(np.abs(res.fun).max())}
+
+
 def run_pyhs(ctx, case):
     eta, d, kT = case['eta'], case['d'], case['kT']
     rho = 6 * eta / (math.pi * d ** 3)
     rows = []
+    nsp = 1 if case.get('reuse') else [1, 1, 1, 2, 3, 3, 4][zlib.crc32(json.dumps(case, sort_keys=True, default=str).encode()) // 3 % 7]
     for lv in range(int(case['levels'])):
         dr = d / 10.0 / 2 ** lv
         L = int(round(case.get('rmax', 25.6) * d / dr))          # 256..2048, or 205/287 x 2^n (prime factors 41 and 7)
@@ -111,6 +140,12 @@ def run_pyhs(ctx, case):
         for e_step in [x for x in (0.15, 0.3, 0.4) if x < eta - 0.02] + [eta]:
             sp = dict(types=['A'], dr=dr, L=L, d={'A': d}, rho={'A': 6 * e_step / (math.pi * d ** 3)}, kT=kT, pot={'A|A': {'t': 'HS'}}, clo={'A|A': {'t': 'PY', 'hc': case['hc']}}, om={'A|A': {'t': 'SS'}},
                       via=case.get('via', 'dr'), kT_via=case.get('kT_via', 'ctor'), labels={'A': label_of(case)})
+            if nsp > 1:
+                # the same one-component fluid, written down as nsp labelled species of identical spheres with unequal mole fractions
+                ts = list('ABCD')[:nsp]
+                sp = dict(types=ts, dr=dr, L=L, d={t: d for t in ts}, rho={t: f * 6 * e_step / (math.pi * d ** 3) for t, f in zip(ts, FRACTIONS[nsp])}, kT=kT,
+                          pot={G.pk(a, b): {'t': 'HS'} for (_, _), (a, b) in G.pairs(ts)}, clo={G.pk(a, b): {'t': 'PY', 'hc': case['hc']} for (_, _), (a, b) in G.pairs(ts)},
+                          om={G.pk(a, b): {'t': 'SS' if a == b else 'NI'} for (_, _), (a, b) in G.pairs(ts)}, via=case.get('via', 'dr'), kT_via=case.get('kT_via', 'ctor'))
             if case.get('reuse'):
                 # a density sweep on ONE System object, as the tutorials do
                 if s_reused is None:
@@ -130,6 +165,9 @@ def run_pyhs(ctx, case):
             s_reused.kT = kT * 2.0
             s_reused.diameter[G.fresh(label_of(case))] = d + dr
         r, k, dk = R.grids(L, dr)
+        if nsp > 1:
+            rows.append(mixture_row(p, res, sp, rho, d, dr, L, lv, k, dk, r))
+            continue
         g = np.array(pyPRISM.calculate.pair_correlation(p)[G.fresh(label_of(case)), G.fresh(label_of(case))])
         if g.min() < -1e-3:
             raise core.Skip('solver converged to an unphysical root (g < 0)')
@@ -145,7 +183,8 @@ def run_pyhs(ctx, case):
                      'gcore': float(np.abs(g[:ic - 1]).max()), 'resid': float(np.abs(res.fun).max())})
     ctx.hook('hs.family')
     ctx.hook('hs.S_k_points', len(rows[0]['k']))
-    label = 'PY hard spheres eta=%.4f d=%g kT=%.3g%s' % (eta, d, kT, ' (flag)' if case['hc'] else '')
+    label = 'PY hard spheres eta=%.4f d=%g kT=%.3g%s%s' % (eta, d, kT, ' (flag)' if case['hc'] else '', (' written as %d labelled species with fractions %s' % (nsp, FRACTIONS[nsp])) if nsp > 1 else '')
+    ctx.count('labelled_species', nsp)
     drs = [q['dr'] for q in rows]
     K, C = K1(eta), C2(eta)
     ex = {'gc': R.py_hs_contact(eta), 'S0': R.py_hs_S0(eta), 'Sk': R.py_hs_S_k(rows[0]['k'], eta, d), 'cin': R.py_hs_c_r(rows[0]['rin'] / d, eta)}
@@ -165,8 +204,8 @@ def run_pyhs(ctx, case):
     ctx.count('eta_decile', int(eta * 10))
     ctx.count('system_reused_in_sweep', bool(case.get('reuse')))
     ctx.count('domain_via', case.get('via', 'dr'))
-    ctx.sample({'PY_hard_spheres': {'eta': eta, 'd': d, 'kT': kT, 'levels': drs, 'contact': [float(q['gc']) for q in rows], 'contact_exact': ex['gc'],
-                                     'S0': [float(q['S0']) for q in rows], 'S0_exact': ex['S0']}}, limit=3)
+    ctx.sample({'PY_hard_spheres': {'eta': eta, 'd': d, 'kT': kT, 'levels': drs, 'contact': [float(np.ravel(q['gc'])[0]) for q in rows], 'contact_exact': ex['gc'],
+                                     'S0': [float(np.ravel(q['S0'])[0]) for q in rows], 'S0_exact': ex['S0'], 'labelled_species': nsp}}, limit=3)
 
 
 def label_of(case):
@@ -222,7 +261,8 @@ def run_dilute(ctx, case):
         r = R.grids(sp['L'], dr)[0]
         g = np.array(pyPRISM.calculate.pair_correlation(p)[G.fresh(label_of(case)), G.fresh(label_of(case))])
         B2 = float(pyPRISM.calculate.second_virial(p)[G.fresh(label_of(case)), G.fresh(label_of(case))])
-        rows.append({'dr': dr, 'g': g, 'r': r, 'B2': B2})
+        B2n = float(pyPRISM.calculate.second_virial(p, extrapolate=False)[G.fresh(label_of(case)), G.fresh(label_of(case))])
+        rows.append({'dr': dr, 'g': g, 'r': r, 'B2': B2, 'B2n': B2n})
         ps, cs = sp['pot']['A|A'], sp['clo']['A|A']
     ctx.hook('dilute.family')
     label = 'dilute %s%s / %s kT=%g' % (ps['t'], {k: v for k, v in ps.items() if k != 't'}, case['clo'], case['kT'])
@@ -257,6 +297,13 @@ def run_dilute(ctx, case):
     errs = [abs(row['B2'] - B2ref) / scale for row in rows]
     rich = abs(2 * rows[-1]['B2'] - rows[-2]['B2'] - B2ref) / scale
     ok = judge_family(ctx, 'B2', label, errs, [row['dr'] for row in rows], K=3.0, C=6.0, rich=rich, last_pair_only=True, ratio_max=0.75, scale_note='(of 2 pi Int |h| r^2 dr = %.4g; exact B2 %.6g, its 3-point k-extrapolation %.6g)' % (scale, B2ex, B2ref))
+    if ok:
+        # the other reported value (extrapolate=False) is -1/2 of h at the LOWEST wavenumber: the reference is the exact transform there
+        B2nref = -0.5 * float(hk[0])
+        errs_n = [abs(row['B2n'] - B2nref) / scale for row in rows]
+        rich_n = abs(2 * rows[-1]['B2n'] - rows[-2]['B2n'] - B2nref) / scale
+        ok = judge_family(ctx, 'B2(extrapolate=False)', label, errs_n, [row['dr'] for row in rows], K=3.0, C=6.0, rich=rich_n, last_pair_only=True, ratio_max=0.75,
+                          scale_note='(of 2 pi Int |h| r^2 dr = %.4g; -h(k_1)/2 of the exact transform %.6g)' % (scale, B2nref))
     if ok and abs(B2ref - B2ex) <= 2e-3 * scale:
         # when the three lowest k resolve h(k), the reported value must approach the volume integral itself
         if not abs(2 * rows[-1]['B2'] - rows[-2]['B2'] - B2ex) <= (6.0 * rows[-2]['dr'] ** 2 + 2e-3) * scale:
